@@ -572,9 +572,16 @@ def enc (ts : List Txt) : List Char := ts.flatMap fun t => ' ' :: t
 
 /-- a skipped region is printed as `{ }` (only the empty one is in the printer's range) -/
 def ignToks : List Txt := [K .Lbrace, K .Rbrace]
+def ignOptToks : Option (List IgnTok) → List Txt
+  | some _ => ignToks
+  | none => []
+def semiToks (b : Bool) : List Txt := if b then [K .Semi] else []
+def headToks : Option (List IgnTok) → List Txt
+  | some _ => ignToks
+  | none => [K .Semi]
 def Group.toks (g : Group) : List Txt :=
   g.name :: K .Equal :: K .Quote :: g.first :: (g.more.flatMap (fun q => [K .Plus, q]) ++
-    (K .Quote :: ((match g.ign with | some _ => ignToks | none => []) ++ (if g.semi then [K .Semi] else []))))
+    (K .Quote :: (ignOptToks g.ign ++ semiToks g.semi)))
 def Cell.toks : Cell → List Txt
   | .cell q => [q]
   | .bang => [K .Bang]
@@ -602,7 +609,7 @@ def Block.toks : Block → List Txt
   | .chains cs => K .Scanstructures :: K .Lbrace :: (cs.flatMap Chain.toks ++ [K .Rbrace])
   | .pattern n its => K .Pattern :: n :: K .Lbrace :: (its.flatMap PatItem.toks ++ [K .Rbrace])
 def StilFile.toks (f : StilFile) : List Txt :=
-  K .Stil :: f.version :: ((match f.headIgn with | some _ => ignToks | none => [K .Semi]) ++ f.blocks.flatMap Block.toks)
+  K .Stil :: f.version :: (headToks f.headIgn ++ f.blocks.flatMap Block.toks)
 
 def printStilL (f : StilFile) : List Char := enc f.toks ++ ['\n']
 def printStil (f : StilFile) : String := String.ofList (printStilL f)
